@@ -6,7 +6,8 @@ Op lines (a sequence starts with `reset c`, c = bit0 POCCA | bit1 POCMA | bit2 S
   def i a | ip i a T v thr | cp i a k thr | mv i a k | ptr i a k const
   cc i j thr | cca i j a thr | mc i j | mca i j a | ca i j thr | ma i j | del i
   get i | set i v | as i T | asc i T | gp i
-i, j: pool slots 0..2; a: allocator id (ids 2c, 2c+1 compare equal); T ∈ S(16) E(32 = small
+i, j: pool slots 0..2; a: allocator id (ids 2c, 2c+1 are copies over the same tracking arena c
+and compare equal, any other pair is unequal); T ∈ S(16) E(32 = small
 buffer size) L(48); k: environment object 0 (S) / 1 (L); thr: the payload constructor throws.
 """
 import itertools
@@ -297,6 +298,7 @@ def new_seq_state(st):
     st['ctor'] = {0: 1, 1: 1}       # id -> constructions (environment objects 0, 1 pre-exist)
     st['dtor'] = {}
     st['blocks'] = {}               # b -> [alloc, freed_by | None]
+    st['arena'] = {}                # arena (allocator id // 2) -> [blocks handed out, blocks handed back to it]
     st['disp'] = {}                 # own key -> object id it dispatched to last
     st['ops'] = 0
 
@@ -333,10 +335,12 @@ def monitor(op, out, st):
                 return f'object id {e[1]} destroyed twice'
         elif k == 'A':
             blocks[e[2]] = [e[1], None]
+            st['arena'].setdefault(e[1] // 2, [0, 0])[0] += 1
         elif k == 'D':
             if e[2] not in blocks or blocks[e[2]][1] is not None:
                 return f'block {e[2]} deallocated but not live'
             blocks[e[2]][1] = e[1]
+            st['arena'].setdefault(e[1] // 2, [0, 0])[1] += 1
             if e[1] // 2 != blocks[e[2]][0] // 2:
                 return (f'block {e[2]} allocated by allocator {blocks[e[2]][0]} but deallocated by '
                         f'unequal allocator {e[1]}')
@@ -357,6 +361,25 @@ def monitor(op, out, st):
                     msg = f'block {b} (allocator {a}) never returned to its allocator'
             if msg is None and res[:1] == ['end'] and (res[1] != 'bad=0' or res[2] != 'blk=0'):
                 msg = f'harness ledger reports {res[1]} {res[2]} at the end of the sequence'
+            # per-arena ledger of the harness's tracking arenas: every arena got back exactly
+            # the blocks it handed out (and it agrees with the A/D events seen by this monitor)
+            if msg is None and res[:1] == ['end']:
+                ar = [x for x in res if x.startswith('ar=')]
+                if len(ar) != 1:
+                    msg = f'no arena ledger in the end-of-sequence line `{" ".join(res)}`'
+                else:
+                    led = {}
+                    if ar[0] != 'ar=-':
+                        for part in ar[0][3:].split(','):
+                            c, af = part.split(':')
+                            a_, f_ = af.split('/')
+                            led[int(c)] = [int(a_), int(f_)]
+                    for c, (a_, f_) in sorted(led.items()):
+                        if a_ != f_ and msg is None:
+                            msg = (f'arena {c} handed out {a_} block(s) but got back {f_}: memory '
+                                   f'not returned to the allocator it came from')
+                    if msg is None and led != {c: v for c, v in st['arena'].items()}:
+                        msg = f'arena ledger {led} disagrees with the allocate/deallocate events {st["arena"]}'
         new_seq_state(st)
         st['first'] = False
         return msg
@@ -421,9 +444,11 @@ if __name__ == '__main__':
     sys.exit(C.standard_check(
         'C16', sys.argv,
         gen_scripts=['gen_c16.py'], modules=['Alpaqa.Props.C16'], driver='drv_c16',
-        extra_sources=['Alpaqa/Model/C16.lean', 'Alpaqa/Gen/C16.lean', 'Driver/C16.lean',
+        extra_sources=['Alpaqa/Model/C16.lean', 'Alpaqa/Model/C16Exec.lean', 'Alpaqa/Gen/C16.lean',
+                       'Driver/C16.lean',
                        'Alpaqa/Proofs/C16Inv.lean', 'Alpaqa/Proofs/C16Ids.lean',
-                       'Alpaqa/Proofs/C16Ops.lean', 'Alpaqa/Proofs/C16Step.lean'],
+                       'Alpaqa/Proofs/C16Ops.lean', 'Alpaqa/Proofs/C16Step.lean',
+                       'Alpaqa/Proofs/C16Exec.lean', 'Alpaqa/Proofs/C16Shape.lean'],
         harness_name='c16',
         harness_sources=[os.path.join(C.VERIF, 'harness', 'c16.cpp')] +
         C.repo_lib_sources(['demangled-typename']),
@@ -433,11 +458,15 @@ if __name__ == '__main__':
         trusted_base=[
             'Lean 4.33 kernel (axioms: propext, Classical.choice, Quot.sound)',
             'gen/cxxparse.py + gen/lean_emit.py + gen/gen_c16.py (translator: sentinels, ownership / '
-            'const / small-buffer predicates, dispatch guards, and the per-path action order of the '
-            'copy/move/assign/cleanup functions of util/type-erasure.hpp → Lean tables)',
-            'hand model Alpaqa/Model/C16.lean (pool of wrappers over a checked ghost heap); its '
-            'declared action order is decided equal to the generated tables, its behaviour is tied '
-            'by event-log correspondence on the explored sequences only',
+            'const / small-buffer predicates, dispatch guards, and — as programs `ite / act / ret` in '
+            'statement order and as per-path tables — the copy/move/assign/cleanup/allocate/'
+            'deallocate/do_copy_assign functions of util/type-erasure.hpp)',
+            'the meaning given to each action / decision name by the interpreter '
+            'Alpaqa/Model/C16Exec.lean over the checked ghost heap of Alpaqa/Model/C16.lean (the '
+            'executable model IS the interpreter of the regenerated programs; '
+            'step_runs_generated_programs proves it equal, on every state and operation, to the '
+            'hand-staged bodies the invariant proofs use); the meaning of the ~45 action names is '
+            'tied to the C++ statements by event-log correspondence on the explored sequences',
             'std::allocator_traits / uninitialized_construct_using_allocator as documented; '
             'AddressSanitizer + UBSan on the harness',
         ],
